@@ -489,12 +489,11 @@ func parseSnap(out string) (sn snap, ok bool) {
 	return sn, true
 }
 
+// the findings still listed as known (x_percent = 0 is not range-checked); every other signature is a violation,
+// among them the repaired ones: mpk-accepted-twice-from-one-miner (156160f), sos-accepted-from-non-member and
+// sos-with-unknown-mpk-id-crashes-node (2f3cfcd), wait-accepted-from-non-member (0a444b0),
+// stored-magic-block-pools-have-no-visible-members (964b895)
 var known = map[string]int{
-	"C38:wait-accepted-from-non-member":                    5,
-	"C38:sos-with-unknown-mpk-id-crashes-node":             4,
-	"C38:sos-accepted-from-non-member":                     3,
-	"C38:mpk-accepted-twice-from-one-miner":                2,
-	"C38:stored-magic-block-pools-have-no-visible-members": 1,
 	"C38:magic-block-without-previous-miner-at-x-percent-0": 6,
 	"C38:pay-fees-panics-at-x-percent-0":                    7,
 }
@@ -547,6 +546,7 @@ func oracle(ops, outs []string) *corr.Violation {
 	nMpk, nSos := 0, 0 // accepted since the last snapshot
 	lastMB := int64(-1)
 	vcInCase := 0
+	mpkSenders := map[string]bool{} // miners whose own contribution was accepted for the current MPK list
 	for i := 1; i < len(ops); i++ {
 		ws := strings.Fields(ops[i])
 		out := outs[i]
@@ -570,9 +570,10 @@ func oracle(ops, outs []string) *corr.Violation {
 			case size != cur.T:
 				note(i, "mpk-accepted-with-wrong-size", fmt.Sprintf("size %d, T = %d", size, cur.T))
 			case mpkBy[ws[1]] > 0:
-				note(i, "mpk-accepted-twice-from-one-miner", fmt.Sprintf("miner %s had already contributed in this phase; the payload's ID field replaces the sender as the key", ws[1]))
+				note(i, "mpk-accepted-twice-from-one-miner", fmt.Sprintf("miner %s had already contributed in this phase", ws[1]))
 			}
 			mpkBy[ws[1]]++
+			mpkSenders[ws[1]] = true
 			nMpk++
 		case "sos":
 			if out == "crash" {
@@ -595,7 +596,7 @@ func oracle(ops, outs []string) *corr.Violation {
 			case sosBy[ws[1]] > 0:
 				note(i, "sos-accepted-twice", "second acceptance for the same sender in one phase")
 			case !cur.dkg[ws[1]]:
-				note(i, "sos-accepted-from-non-member", fmt.Sprintf("%s is not in the DKG miners list (it replayed the shares of a contributor)", ws[1]))
+				note(i, "sos-accepted-from-non-member", fmt.Sprintf("%s is not in the DKG miners list", ws[1]))
 			}
 			sosBy[ws[1]]++
 			nSos++
@@ -666,6 +667,15 @@ func oracle(ops, outs []string) *corr.Violation {
 			}
 			if sn.phase != old.phase || sn.restarts != old.restarts {
 				mpkBy, sosBy, waitBy = map[string]int{}, map[string]int{}, map[string]int{}
+			}
+			// recorded under the sender's id: every stored MPK key is a miner whose own contribution was accepted
+			for id := range sn.mpks {
+				if !mpkSenders[id] {
+					note(i, "mpk-recorded-under-foreign-id", fmt.Sprintf("an MPK is stored under %s, which did not contribute itself", id))
+				}
+			}
+			if len(sn.mpks) == 0 && sn.phase != 1 {
+				mpkSenders = map[string]bool{} // the list was reset (restart or magic block produced)
 			}
 			nMpk, nSos = 0, 0
 			// a newly produced magic block
@@ -755,14 +765,14 @@ func main() {
 				"pay", "pay", "mpk m0 3", "mpk m1 3", "mpk m2 3", "mpk m4 3", "keep m0 s0", "keep m0 s1", "pay", "pay", "pay", "pay", "pay",
 				"sos m0 3 valid", "sos m1 3 valid", "sos m2 3 valid", "sos m4 3 valid", "pay", "pay", "pay",
 				"wait m0", "wait m1", "wait m2", "wait m4", "pay", "pay", "pay"), fmt.Sprintf("finalize seed=11 perms=%s", permTable(11, nMinerKeys))), "pay", "pay", "pay"),
-			// witness: one miner contributes three MPKs (own id, another member's id, a stranger's id)
+			// (pre-156160f witness) one miner tries to contribute three MPKs naming another member, a stranger, itself: one key, under its own id
 			{fixedInit(""), "pay", "pay", "pay", "mpk m3 3 as=m4", "mpk m3 3 as=x1", "mpk m3 3", "mpk m3 3", "pay"},
-			// witness: a stranger replays a contributor's shares in Publish
+			// (pre-2f3cfcd witness) a stranger replays a contributor's shares in Publish: refused
 			append(append([]string{fixedInit("")}, toPublish...), "sos m0 3 valid", "sos x0 3 valid as=m0", "sos x0 3 valid as=m0", "pay"),
-			// witness: wait confirmations from a stranger and from an unregistered miner
+			// (pre-0a444b0 witness) wait confirmations from a stranger and from an unregistered miner: refused
 			append(append([]string{fixedInit("")}, toPublish...), "sos m0 3 valid", "sos m1 3 valid", "sos m2 3 valid", "sos m3 3 valid", "pay", "pay",
 				"wait x0", "wait m7", "wait m0", "pay"),
-			// witness: shares under an id that has no MPK (run in a child process)
+			// (pre-2f3cfcd witness) shares of senders that have no MPK: refused (used to end the process)
 			append(append([]string{fixedInit("")}, toPublish...), "sos x1 3 valid", "sos m4 1 valid", "sos m0 3 valid", "pay"),
 			// x_percent = 0: no quota of previous miners; the best-staked candidate (not a previous miner) is the only one kept
 			{"init minN=1 maxN=1 minS=1 maxS=4 t=" + bitsOf(0.66) + " k=" + bitsOf(0.5) + " x=" + bitsOf(0) + " rounds=1,1,1,1,3 miners=m0:30,m4:20,m1:30 sharders=s0:20,s3:5 prevM=m4,m5 prevS=s0 seed=7 perms=" + permTable(7, nMinerKeys),
